@@ -2131,10 +2131,617 @@ fn replace_all(hay: &[u8], from: &[u8], to: &[u8]) -> Vec<u8> {
     out
 }
 
+//============ history: what happened before on the same thread ==============
+
+type Act = Box<dyn Fn() -> String + Send + Sync>;
+
+/// Runs `f` on a dedicated, new OS thread (fresh thread-locals), waits for it.
+fn on_fresh_thread<T: Send>(f: impl FnOnce() -> T + Send) -> T {
+    std::thread::scope(|s| s.spawn(f).join().unwrap_or_else(|_| panic!("history thread died")))
+}
+
+/// One observation: everything observable as text; a panic is an observation too.
+fn observe(f: &Act) -> String {
+    match guard(|| f()) { Ok(s) => s, Err(p) => format!("PANIC: {p}") }
+}
+
+fn hist_notification(variant: u64) -> NotificationFile {
+    let hs = hashes();
+    NotificationFile::new(sessions()[2], 40 + variant, UriAndHash::new(https(HTTPS_URIS[2]), hs[2]),
+        (0..=variant).map(|i| DeltaInfo::new(40 + variant - i, https(&format!("https://h.example/{i}/d'.xml")), hs[(i % 3) as usize])).collect())
+}
+fn hist_snapshot(variant: u64) -> Snapshot {
+    Snapshot::new(sessions()[2], 7 + variant, (0..=variant).map(|i| PublishElement::new(rsync(&format!("rsync://h.example/m/{i}&.cer")), DataSpec { len: 3 + 5 * i as usize, pat: 2 }.bytes())).collect())
+}
+fn hist_delta(variant: u64) -> Delta {
+    let hs = hashes();
+    let mut els: Vec<DeltaElement> = vec![
+        UpdateElement::new(rsync("rsync://h.example/m/u.cer"), hs[2], DataSpec { len: 4, pat: 2 }.bytes()).into(),
+        WithdrawElement::new(rsync("rsync://h.example/m/w.cer"), hs[1]).into(),
+    ];
+    for i in 0..variant { els.push(PublishElement::new(rsync(&format!("rsync://h.example/m/p{i}.cer")), DataSpec { len: i as usize, pat: 1 }.bytes()).into()) }
+    Delta::new(sessions()[2], 9 + variant, els)
+}
+
+fn text(v: &[u8]) -> String { String::from_utf8_lossy(v).into_owned() }
+
+/// The subjects: representative evaluations of every oracle family, accepted and rejected.
+fn history_subjects() -> Vec<(&'static str, Act)> {
+    let mut v: Vec<(&'static str, Act)> = Vec::new();
+    v.push(("write+parse notification", Box::new(|| {
+        let mut xml = Vec::new();
+        let w = hist_notification(1).write_xml(&mut xml).map_err(|e| e.to_string());
+        format!("{w:?} {} => {:?}", text(&xml), NotificationFile::parse(xml.as_slice()).map_err(|e| e.to_string()))
+    })));
+    v.push(("write+parse snapshot", Box::new(|| {
+        let mut xml = Vec::new();
+        let w = hist_snapshot(1).write_xml(&mut xml).map_err(|e| e.to_string());
+        format!("{w:?} {} => {:?}", text(&xml), Snapshot::parse(xml.as_slice()).map_err(|e| e.to_string()))
+    })));
+    v.push(("write+parse delta", Box::new(|| {
+        let mut xml = Vec::new();
+        let w = hist_delta(2).write_xml(&mut xml).map_err(|e| e.to_string());
+        format!("{w:?} {} => {:?}", text(&xml), Delta::parse(xml.as_slice()).map_err(|e| e.to_string()))
+    })));
+    for kind in [Kind::Notification, Kind::Snapshot, Kind::Delta] {
+        v.push((match kind { Kind::Notification => "process notification skeleton", Kind::Snapshot => "process snapshot skeleton", Kind::Delta => "process delta skeleton" }, Box::new(move || {
+            let doc = skeleton(kind);
+            match kind {
+                Kind::Notification => format!("{:?}", NotificationFile::parse(doc.as_slice()).map_err(|e| e.to_string())),
+                Kind::Snapshot => { let mut c = Collect::new(3); let r = <Collect as ProcessSnapshot>::process(&mut c, doc.as_slice()).map_err(|e| e.to_string()); format!("{r:?} {:?} {:?}", c.meta, c.seen) }
+                Kind::Delta => { let mut c = Collect::new(0); let r = <Collect as ProcessDelta>::process(&mut c, doc.as_slice()).map_err(|e| e.to_string()); format!("{r:?} {:?} {:?}", c.meta, c.seen) }
+            }
+        })));
+        v.push((match kind { Kind::Notification => "rejected notification", Kind::Snapshot => "rejected snapshot", Kind::Delta => "rejected delta" }, Box::new(move || {
+            let doc = skeleton(kind);
+            let cut = &doc[..doc.len() * 2 / 3];
+            format!("{:?} / wrong type: {:?}", parse_as(kind, cut), parse_as(kind, skeleton(if kind == Kind::Delta { Kind::Snapshot } else { Kind::Delta }).as_slice()))
+        })));
+    }
+    v.push(("delta chain and origins", Box::new(|| {
+        let mut nf = mk_notification(&[5, MAX, 3, 4]);
+        let a = nf.sort_and_verify_deltas(Some(3));
+        let mut g = mk_notification(&[2, 0, 1]);
+        let b = g.sort_and_verify_deltas(None);
+        g.reverse_sort_deltas();
+        format!("{a} {:?} {b} {:?} {} {}", nf.deltas().iter().map(|d| d.serial()).collect::<Vec<_>>(), g.deltas().iter().map(|d| d.serial()).collect::<Vec<_>>(),
+            g.has_matching_origins(&https("https://H.example/x")), g.has_matching_origins(&https("https://h.example.org/x")))
+    })));
+    v.push(("generic writer and readers", Box::new(|| {
+        let mut w = xe::Writer::new(Vec::new());
+        let r = write_mini(&mut w, "k&", "a'<", "t&<x").map_err(|e| e.to_string());
+        let out = w.into_wrapped().map_err(|e| e.to_string());
+        let doc = &mini_docs()[0].1;
+        format!("{r:?} {:?} {:?} {:?}", out.map(|o| text(&o)), mini_variants(doc.as_slice(), [300, 1000, 600]).map_err(|e| e.to_string()), mini_siblings(doc.as_slice(), [300, 1000, 600]).map_err(|e| e.to_string()))
+    })));
+    v.push(("base64 and formatting", Box::new(|| {
+        use rpki::util::base64 as b64;
+        let h = Hash::from_data(b"c09");
+        format!("{:?} {:?} {} {} {h} {h:?} {:?} {:?} {:?}", b64::Xml.decode(" QUJD\n REVG ").map_err(|e| e.to_string()), b64::Xml.decode("QUJ").map_err(|e| e.to_string()), b64::Xml.encode(b"\xff\xfe\xfd"), b64::Slurm.encode(b"\xff\xfe\xfd"),
+            xd::Name::qualified(b"urn:\xff", "n\u{e9}".as_bytes()), Hash::from_str("zz").map_err(|e| e.to_string()), Hash::from_str(H1))
+    })));
+    v.push(("bounded read of an endless run", Box::new(|| {
+        let doc = &mini_docs()[1].1;
+        let block = block_of(b" ");
+        let mut counting = Counting { inner: Gen { pre: &doc[..60], head: b"", block: &block, run_len: u64::MAX, suf: b"", pos: 0, cap: 8000, cap_hit: false }, pulled: 0 };
+        let r = mini_variants(BufReader::with_capacity(16, &mut counting), [300, 1000, 600]).map_err(|e| e.to_string());
+        format!("{r:?} pulled {}", counting.pulled)
+    })));
+    v.push(("object readers used piecemeal", Box::new(|| {
+        let mut xml = Vec::new();
+        let _ = hist_snapshot(2).write_xml(&mut xml);
+        let scripts = vec![vec![ROp::Read(1), ROp::Exact(1), ROp::ToEnd], vec![ROp::Bytes(3)], vec![ROp::ToString]];
+        let mut p = ScriptProc { scripts: &scripts, idx: 0, events: Vec::new() };
+        let r = <ScriptProc as ProcessSnapshot>::process(&mut p, xml.as_slice()).map_err(|e| e.to_string());
+        format!("{r:?} {:?}", p.events)
+    })));
+    v
+}
+
+/// A processor that stops in a chosen way at a chosen element.
+struct Abort { at: usize, seen: usize, mode: u8 }
+impl Abort {
+    fn hit(&mut self, data: Option<&mut ObjectReader>) -> Result<(), ProcessError> {
+        let now = self.seen == self.at;
+        self.seen += 1;
+        if let Some(d) = data {
+            if !(now && self.mode == 3) { let mut one = [0u8; 1]; let _ = d.read(&mut one); } // mode 3: reader dropped untouched
+            if !now { let mut rest = Vec::new(); d.read_to_end(&mut rest)?; }
+        }
+        if now { match self.mode { 0 => return Err(ProcessError::Io(io::Error::other("processor gives up"))), 1 => panic!("processor panics"), _ => {} } }
+        Ok(())
+    }
+}
+impl ProcessSnapshot for Abort {
+    type Err = ProcessError;
+    fn meta(&mut self, _: Uuid, _: u64) -> Result<(), ProcessError> { if self.at == usize::MAX { self.at = 0; self.seen = 0; return self.hit(None) } Ok(()) }
+    fn publish(&mut self, _: uri::Rsync, data: &mut ObjectReader) -> Result<(), ProcessError> { self.hit(Some(data)) }
+}
+impl ProcessDelta for Abort {
+    type Err = ProcessError;
+    fn meta(&mut self, _: Uuid, _: u64) -> Result<(), ProcessError> { if self.at == usize::MAX { self.at = 0; self.seen = 0; return self.hit(None) } Ok(()) }
+    fn publish(&mut self, _: uri::Rsync, _: Option<Hash>, data: &mut ObjectReader) -> Result<(), ProcessError> { self.hit(Some(data)) }
+    fn withdraw(&mut self, _: uri::Rsync, _: Hash) -> Result<(), ProcessError> { self.hit(None) }
+}
+
+/// The predecessors: every exit path of the same API family.
+fn history_predecessors(stride: usize) -> Vec<(String, Act)> {
+    let mut v: Vec<(String, Act)> = Vec::new();
+    // (a) writers failing after k octets, for every k up to the length of the document
+    let written = |f: &dyn Fn(&mut Vec<u8>)| { let mut x = Vec::new(); let _ = guard(|| f(&mut x)); x.len() };
+    let n_len = written(&|x| { let _ = hist_notification(0).write_xml(x); });
+    let s_len = written(&|x| { let _ = hist_snapshot(0).write_xml(x); });
+    let d_len = written(&|x| { let _ = hist_delta(1).write_xml(x); });
+    let m_len = written(&|x| { let mut w = xe::Writer::new(x); let _ = write_mini(&mut w, "kk", "aa", "tt"); });
+    for (what, len) in [("notification", n_len), ("snapshot", s_len), ("delta", d_len), ("generic writer document", m_len)] {
+        for k in (0..=len + 1).step_by(stride) {
+            v.push((format!("write_xml of a {what} into a writer that fails after {k} of {len} octets"), Box::new(move || {
+                let mut sink = FailingWriter { budget: k, written: Vec::new() };
+                let r = match what {
+                    "notification" => hist_notification(0).write_xml(&mut sink),
+                    "snapshot" => hist_snapshot(0).write_xml(&mut sink),
+                    "delta" => hist_delta(1).write_xml(&mut sink),
+                    _ => { let mut w = xe::Writer::new(&mut sink); write_mini(&mut w, "kk", "aa", "tt").and_then(|_| w.done()) }
+                };
+                format!("{:?}", r.map_err(|e| e.to_string()))
+            })));
+            // a full `&mut [u8]` answers Ok(0) instead of an error. Only for documents without base64
+            // content: base64's EncoderWriter retries a write that reports 0 octets for ever
+            // (dependency behaviour, outside this property; see the report).
+            if what == "notification" || what == "generic writer document" {
+                v.push((format!("write_xml of a {what} into a `&mut [u8]` of {k} octets (document has {len})"), Box::new(move || {
+                    let mut buf = vec![0u8; k];
+                    let mut sink: &mut [u8] = &mut buf[..];
+                    let r = if what == "notification" { hist_notification(0).write_xml(&mut sink) } else { let mut w = xe::Writer::new(&mut sink); write_mini(&mut w, "kk", "aa", "tt").and_then(|_| w.done()) };
+                    format!("{:?}", r.map_err(|e| e.to_string()))
+                })));
+            }
+        }
+    }
+    // (b) parse errors at every stage: the skeleton cut at every offset; one substitution sweep
+    for kind in [Kind::Notification, Kind::Snapshot, Kind::Delta] {
+        let len = skeleton(kind).len();
+        for k in (0..len).step_by(stride) {
+            v.push((format!("parse of the {} skeleton cut after {k} octets", kind.name()), Box::new(move || format!("{:?}", parse_as(kind, &skeleton(kind)[..k])))));
+        }
+        for k in (0..len).step_by(stride.max(1) * 7) {
+            v.push((format!("parse of the {} skeleton with octet {k} := '<'", kind.name()), Box::new(move || { let mut d = skeleton(kind); d[k] = b'<'; format!("{:?}", parse_as(kind, d.as_slice())) })));
+        }
+        // successes on other documents
+        for (shape, doc) in shapes(kind) {
+            v.push((format!("parse of the {}/{shape} document", kind.name()), Box::new(move || format!("{:?}", parse_as(kind, doc.as_slice())))));
+        }
+    }
+    // (c) processors that give up, panic, or leave the object reader alone, at every element
+    for mode in 0..4u8 { for at in [usize::MAX, 0, 1, 2, 3] {
+        let how = ["returns an error", "panics", "reads one octet only", "drops the reader untouched"][mode as usize];
+        let at_s = if at == usize::MAX { "in meta()".to_string() } else { format!("at element {at}") };
+        v.push((format!("snapshot processor that {how} {at_s}"), Box::new(move || {
+            let r = guard(|| <Abort as ProcessSnapshot>::process(&mut Abort { at, seen: 0, mode }, skeleton(Kind::Snapshot).as_slice()).map_err(|e| e.to_string()));
+            format!("{r:?}")
+        })));
+        v.push((format!("delta processor that {how} {at_s}"), Box::new(move || {
+            let r = guard(|| <Abort as ProcessDelta>::process(&mut Abort { at, seen: 0, mode }, skeleton(Kind::Delta).as_slice()).map_err(|e| e.to_string()));
+            format!("{r:?}")
+        })));
+    }}
+    // (d) same identity, different content; longer and shorter values; successes
+    for variant in [0u64, 1, 2, 3, 17] {
+        v.push((format!("successful write+parse of a notification with {} deltas (same session)", variant + 1), Box::new(move || { let mut x = Vec::new(); let _ = hist_notification(variant).write_xml(&mut x); format!("{:?}", NotificationFile::parse(x.as_slice()).is_ok()) })));
+        v.push((format!("successful write+parse of a snapshot with {} objects (same session)", variant + 1), Box::new(move || { let mut x = Vec::new(); let _ = hist_snapshot(variant).write_xml(&mut x); format!("{:?}", Snapshot::parse(x.as_slice()).is_ok()) })));
+        v.push((format!("successful write+parse of a delta with {} elements (same session)", variant + 2), Box::new(move || { let mut x = Vec::new(); let _ = hist_delta(variant).write_xml(&mut x); format!("{:?}", Delta::parse(x.as_slice()).is_ok()) })));
+    }
+    // (e) reads stopped by the limit, base64 and hash text errors, formatting of odd names
+    for (ri, r) in RUNS.iter().enumerate() { if ri % stride.min(4) == 0 {
+        v.push((format!("generic reader stopped by the limit on an endless {} run", r.name), Box::new(move || {
+            let doc = &mini_docs()[0].1;
+            let block = block_of(RUNS[ri].unit);
+            let mut counting = Counting { inner: Gen { pre: &doc[..55], head: RUNS[ri].head, block: &block, run_len: u64::MAX, suf: b"", pos: 0, cap: 8000, cap_hit: false }, pulled: 0 };
+            format!("{:?}", mini_variants(BufReader::with_capacity(64, &mut counting), [300, 1000, 600]).map_err(|e| e.to_string()))
+        })));
+    }}
+    for bad in ["A", "QUJ", "QU=D", "\u{e9}\u{e9}", "QUJD!", "===="] {
+        v.push((format!("base64 decode error on {bad:?}"), Box::new(move || {
+            use rpki::util::base64 as b64;
+            let mut rd = b64::Xml.decode_reader(bad); let mut one = [0u8; 2];
+            format!("{:?} {:?} {:?}", b64::Xml.decode(bad).map_err(|e| e.to_string()), rd.read(&mut one).map_err(|e| e.to_string()), b64::Slurm.decode(bad).map_err(|e| e.to_string()))
+        })));
+    }
+    for bad in ["", "zz", "0g", H1.trim_end_matches('c'), "\u{20ac}"] {
+        v.push((format!("Hash::from_str error on {bad:?}"), Box::new(move || format!("{:?} {:?}", Hash::from_str(bad).map_err(|e| e.to_string()), uri::Https::from_str(bad).map_err(|e| e.to_string())))));
+    }
+    v.push(("sort_and_verify_deltas / sorts on a long list".into(), Box::new(|| { let mut nf = mk_notification(&[9, 1, 8, 2, 7, 3, MAX, 0]); let a = nf.sort_and_verify_deltas(Some(0)); nf.reverse_sort_deltas(); format!("{a}") })));
+    v
+}
+
+fn space_history(ctx: &Ctx) {
+    let thorough = ctx.tier.is_thorough();
+    let sp = ctx.space("history.independent",
+        "sequences on one dedicated OS thread (std::thread, fresh thread-locals): one predecessor, then every subject, then every subject again in reverse order; each observation (all output, as text) must equal the one the same subject gives when it is the first thing a new thread does. Predecessors: write_xml of a notification / snapshot / delta / generic-writer document into a writer that fails after k octets for EVERY k up to the document length (and, for the documents without base64 content, into a `&mut [u8]` of every length k); parse of each skeleton cut at every offset (errors at every stage), one substitution sweep, parses of all document shapes; processors that return an error, panic, read one octet or drop the reader at every element and in meta(); successful writes of shorter / longer values with the same session; limit-stopped reads; base64 / hash / URI text errors. thorough: additionally all ordered pairs of predecessors from the menu taken at stride 16. non-trivial = sequences whose predecessor failed (took an error or panic path)");
+    let subjects = history_subjects();
+    let baseline: Vec<String> = subjects.iter().map(|(_, f)| on_fresh_thread(|| observe(f))).collect();
+    // self-check of the machinery: the baseline itself is reproducible
+    for ((name, f), b) in subjects.iter().zip(&baseline) {
+        if on_fresh_thread(|| observe(f)) != *b { ctx.machinery_error(format!("history subject {name:?} is not deterministic on fresh threads")) }
+    }
+    let fails = Fails::new();
+    let run_sequence = |order: u64, preds: &[&(String, Act)]| {
+        let (pre_obs, obs): (Vec<String>, Vec<(usize, bool, String)>) = on_fresh_thread(|| {
+            let pre: Vec<String> = preds.iter().map(|p| observe(&p.1)).collect();
+            let mut out = Vec::new();
+            for (i, (_, f)) in subjects.iter().enumerate() { out.push((i, false, observe(f))) }
+            for (i, (_, f)) in subjects.iter().enumerate().rev() { out.push((i, true, observe(f))) }
+            (pre, out)
+        });
+        let failed_path = pre_obs.iter().any(|o| o.contains("Err(") || o.starts_with("PANIC"));
+        sp.evals(obs.len() as u64);
+        if failed_path { sp.nontrivial(1); sp.outcome("after-a-failed-operation") } else { sp.outcome("after-a-successful-operation") }
+        for (i, rev, o) in obs {
+            if o != baseline[i] {
+                let names: Vec<&str> = preds.iter().map(|p| p.0.as_str()).collect();
+                fails.push(order << 8 | (i as u64) << 1 | rev as u64, "C09.history.independent",
+                    format!("after [{}]: subject {:?}{}", names.join("; then "), subjects[i].0, if rev { " (second, reverse pass)" } else { "" }),
+                    format!("observed {} -- on a fresh thread the same subject gives {}", trunc(&first_difference(&o, &baseline[i]), 400), trunc(&first_difference(&baseline[i], &o), 400)));
+            }
+        }
+    };
+    let preds = history_predecessors(1);
+    preds.par_iter().enumerate().for_each(|(pi, p)| run_sequence(pi as u64, &[p]));
+    let mut bound = format!("{} predecessors x {} subjects x 2 passes", preds.len(), subjects.len());
+    if thorough {
+        let menu = history_predecessors(16);
+        let n = menu.len();
+        (0..n * n).into_par_iter().for_each(|ij| run_sequence((1 << 30) | ij as u64, &[&menu[ij / n], &menu[ij % n]]));
+        bound.push_str(&format!("; {} ordered pairs of {n} predecessors", n * n));
+    }
+    fails.flush_into(ctx, &sp);
+    sp.set("subjects", json!(subjects.iter().map(|s| s.0).collect::<Vec<_>>()));
+    sp.sample_str(|| preds[3].0.clone());
+    sp.sample_str(|| preds[preds.len() / 2].0.clone());
+    sp.done(true, &bound);
+}
+
+/// The part of `a` around the first place where it differs from `b`.
+fn first_difference(a: &str, b: &str) -> String {
+    let k = a.bytes().zip(b.bytes()).position(|(x, y)| x != y).unwrap_or(a.len().min(b.len()));
+    let mut from = k.saturating_sub(60);
+    while !a.is_char_boundary(from) { from -= 1 }
+    format!("[at octet {k}] ...{}", &a[from..])
+}
+
+//============ handed-out object readers: every call order ====================
+
+#[derive(Clone, Copy, Debug, PartialEq, Eq)]
+enum ROp { Read(usize), ToEnd, ToString, Exact(usize), Bytes(usize) }
+const ROPS: [ROp; 10] = [ROp::Read(0), ROp::Read(1), ROp::Read(4), ROp::Read(16), ROp::ToEnd, ROp::ToString, ROp::Exact(1), ROp::Exact(5), ROp::Bytes(1), ROp::Bytes(3)];
+
+#[derive(Clone, Debug, PartialEq, Eq)]
+struct OpOut { got: Vec<u8>, ok: bool }
+
+/// Applies the calls to a reader; stops after a failed call; a sequence
+/// that does not end the reader simply drops it early.
+fn apply_ops<R: Read>(rd: &mut R, ops: &[ROp]) -> Vec<OpOut> {
+    let mut outs = Vec::new();
+    for op in ops {
+        let out = match *op {
+            ROp::Read(k) => { let mut b = vec![0u8; k]; match rd.read(&mut b) { Ok(n) => { b.truncate(n.min(k)); OpOut { got: b, ok: n <= k } } Err(_) => OpOut { got: vec![], ok: false } } }
+            ROp::ToEnd => { let mut b = Vec::new(); let ok = rd.read_to_end(&mut b).is_ok(); OpOut { got: b, ok } }
+            ROp::ToString => { let mut t = String::new(); let ok = rd.read_to_string(&mut t).is_ok(); OpOut { got: t.into_bytes(), ok } }
+            ROp::Exact(k) => { let mut b = vec![0u8; k]; let ok = rd.read_exact(&mut b).is_ok(); OpOut { got: if ok { b } else { vec![] }, ok } }
+            ROp::Bytes(k) => { let mut b = Vec::new(); let mut ok = true; for x in rd.by_ref().bytes().take(k) { match x { Ok(x) => b.push(x), Err(_) => { ok = false; break } } } OpOut { got: b, ok } }
+        };
+        let stop = !out.ok;
+        outs.push(out);
+        if stop { break }
+    }
+    outs
+}
+
+/// The `io::Read` contract applied to an object of known content.
+fn judge_ops(data: &[u8], ops: &[ROp], outs: &[OpOut]) -> Result<(), String> {
+    let mut pos = 0usize;
+    for (i, out) in outs.iter().enumerate() {
+        let op = ops[i];
+        let rest = &data[pos..];
+        let fail = |what: &str| Err(format!("call #{i} {op:?} at offset {pos} of {}: {what}; got {} octets {} ok={}", data.len(), out.got.len(), trunc(&hex(&out.got), 48), out.ok));
+        match op {
+            ROp::Read(k) => {
+                if !out.ok { return fail("read failed or returned more than the buffer holds") }
+                if !rest.starts_with(&out.got) { return fail("octets are not the next octets of the object") }
+                if k > 0 && out.got.is_empty() && !rest.is_empty() { return fail("end of data signalled before the end of the object") }
+                pos += out.got.len();
+            }
+            ROp::ToEnd => { if !out.ok || out.got != rest { return fail("read_to_end does not give exactly the remainder") } pos = data.len() }
+            ROp::ToString => {
+                if std::str::from_utf8(rest).is_ok() { if !out.ok || out.got != rest { return fail("read_to_string does not give exactly the remainder") } pos = data.len() }
+                else if out.ok { return fail("read_to_string accepted a remainder that is not UTF-8") } else { return Ok(()) }
+            }
+            ROp::Exact(k) => {
+                if rest.len() >= k { if !out.ok || out.got != rest[..k] { return fail("read_exact does not give the next k octets") } pos += k }
+                else if out.ok { return fail("read_exact succeeded beyond the end of the object") } else { return Ok(()) }
+            }
+            ROp::Bytes(k) => { let want = &rest[..k.min(rest.len())]; if !out.ok || out.got != want { return fail("bytes().take(k) does not give the next octets") } pos += want.len() }
+        }
+    }
+    if outs.len() < ops.len() && outs.last().is_some_and(|o| o.ok) { return Err("fewer results than calls".into()) }
+    Ok(())
+}
+
+#[derive(Clone, Debug, PartialEq, Eq)]
+enum Ev { Publish(String, Option<Hash>, Vec<OpOut>), Withdraw(String, Hash) }
+
+/// A processor that consumes the k-th object by the k-th script (read_to_end beyond).
+struct ScriptProc<'a> { scripts: &'a [Vec<ROp>], idx: usize, events: Vec<Ev> }
+impl ScriptProc<'_> {
+    fn consume(&mut self, uri: uri::Rsync, hash: Option<Hash>, data: &mut ObjectReader) {
+        let default = [ROp::ToEnd];
+        let ops: &[ROp] = self.scripts.get(self.idx).map(|v| v.as_slice()).unwrap_or(&default);
+        self.idx += 1;
+        self.events.push(Ev::Publish(uri.as_str().to_string(), hash, apply_ops(data, ops)));
+    }
+}
+impl ProcessSnapshot for ScriptProc<'_> {
+    type Err = ProcessError;
+    fn meta(&mut self, _: Uuid, _: u64) -> Result<(), ProcessError> { Ok(()) }
+    fn publish(&mut self, uri: uri::Rsync, data: &mut ObjectReader) -> Result<(), ProcessError> { self.consume(uri, None, data); Ok(()) }
+}
+impl ProcessDelta for ScriptProc<'_> {
+    type Err = ProcessError;
+    fn meta(&mut self, _: Uuid, _: u64) -> Result<(), ProcessError> { Ok(()) }
+    fn publish(&mut self, uri: uri::Rsync, hash: Option<Hash>, data: &mut ObjectReader) -> Result<(), ProcessError> { self.consume(uri, hash, data); Ok(()) }
+    fn withdraw(&mut self, uri: uri::Rsync, hash: Hash) -> Result<(), ProcessError> { self.events.push(Ev::Withdraw(uri.as_str().to_string(), hash)); Ok(()) }
+}
+
+fn space_handed_out(ctx: &Ctx) {
+    let thorough = ctx.tier.is_thorough();
+    let sp = ctx.space("handed_out.object_reader",
+        "the ObjectReader handed to ProcessSnapshot::publish / ProcessDelta::publish, consumed by every call sequence of length 0..3 over {read into 0/1/4/16 octets, read_to_end, read_to_string, read_exact(1/5), bytes().take(1/3)} (a sequence that does not end the reader drops it early), object sizes 0..=40, 255, 256, 767..769, 1023..1025, 3000 (quick: length-3 sequences only for sizes 0,1,2,3,4,5,16,17,40,769), ASCII and binary content, in a snapshot [X, Y, Z] and a delta [publish X, withdraw, update Y, publish Z] where X is consumed by the sequence, Y by the reversed sequence and Z by read_to_end: every call must behave as the io::Read contract says for the object's octets (next octets, end of data only at the end, read_exact/read_to_string fail exactly when they must), and all following elements are delivered unharmed; non-trivial = sequences that read part of the object before a bulk call or drop it early");
+    let mut sizes: Vec<usize> = (0..=40).collect();
+    sizes.extend([255, 256, 767, 768, 769, 1023, 1024, 1025, 3000]);
+    let n_seq = seq_count(ROPS.len() as u64, 3);
+    let n_short = seq_count(ROPS.len() as u64, 2);
+    let fails = Fails::new();
+    let content = |len: usize, ascii: bool, salt: usize| -> Vec<u8> { (0..len).map(|i| if ascii { 32 + ((i * 7 + salt) % 95) as u8 } else { ((i * 0x6D + salt * 31 + 0xFB) % 256) as u8 }).collect() };
+    sizes.par_iter().enumerate().for_each(|(si, &size)| {
+        let all3 = thorough || [0usize, 1, 2, 3, 4, 5, 16, 17, 40, 769].contains(&size);
+        let total = if all3 { n_seq } else { n_short };
+        let mut oc: BTreeMap<&'static str, u64> = BTreeMap::new();
+        let (mut n, mut nt) = (0u64, 0u64);
+        for ascii in [true, false] {
+            let objs = [content(size, ascii, 1), content((size * 7 + 3) % 41, !ascii, 2), content(5, ascii, 3)];
+            let uris = ["rsync://h.example/m/x.roa", "rsync://h.example/m/y.roa", "rsync://h.example/m/z.roa"];
+            let hs = hashes();
+            let mut snap_xml = Vec::new();
+            let mut delta_xml = Vec::new();
+            let built = guard(|| {
+                Snapshot::new(sessions()[2], 1, (0..3).map(|i| PublishElement::new(rsync(uris[i]), Bytes::copy_from_slice(&objs[i]))).collect()).write_xml(&mut snap_xml).map_err(|e| e.to_string())?;
+                Delta::new(sessions()[2], 2, vec![
+                    PublishElement::new(rsync(uris[0]), Bytes::copy_from_slice(&objs[0])).into(),
+                    WithdrawElement::new(rsync("rsync://h.example/m/w.roa"), hs[1]).into(),
+                    UpdateElement::new(rsync(uris[1]), hs[2], Bytes::copy_from_slice(&objs[1])).into(),
+                    PublishElement::new(rsync(uris[2]), Bytes::copy_from_slice(&objs[2])).into(),
+                ]).write_xml(&mut delta_xml).map_err(|e| e.to_string())
+            });
+            if !matches!(built, Ok(Ok(()))) { fails.push((si as u64) << 40, "C09.handed_out.object_reader", format!("size {size}: building the files"), format!("{built:?}")); continue }
+            let mut ix = Vec::new();
+            for idx in 0..total {
+                seq_at(ROPS.len() as u64, 3, idx, &mut ix);
+                let ops: Vec<ROp> = ix.iter().map(|&i| ROPS[i]).collect();
+                let mut rev = ops.clone(); rev.reverse();
+                let scripts = vec![ops.clone(), rev.clone(), vec![ROp::ToEnd]];
+                let partial = !ops.is_empty() && !matches!(ops[0], ROp::ToEnd | ROp::ToString) || ops.is_empty();
+                for snapshot in [true, false] {
+                    n += 1; if partial { nt += 1 }
+                    *oc.entry(if ops.iter().any(|o| matches!(o, ROp::ToEnd | ROp::ToString)) { "ends-with-bulk-read" } else { "dropped-early" }).or_insert(0) += 1;
+                    let order = (si as u64) << 40 | (ascii as u64) << 39 | idx << 1 | snapshot as u64;
+                    fails.check(order, "C09.handed_out.object_reader", || format!("{} object of {size} {} octets consumed by {ops:?} (next object by {rev:?}, last by [ToEnd])", if snapshot { "snapshot:" } else { "delta:" }, if ascii { "ASCII" } else { "binary" }), || {
+                        let mut p = ScriptProc { scripts: &scripts, idx: 0, events: Vec::new() };
+                        if snapshot { <ScriptProc as ProcessSnapshot>::process(&mut p, snap_xml.as_slice()).map_err(|e| format!("process fails: {e}"))? }
+                        else { <ScriptProc as ProcessDelta>::process(&mut p, delta_xml.as_slice()).map_err(|e| format!("process fails: {e}"))? }
+                        let want_n = if snapshot { 3 } else { 4 };
+                        if p.events.len() != want_n { return Err(format!("{} elements delivered, {want_n} written", p.events.len())) }
+                        let mut k = 0usize;
+                        for ev in &p.events {
+                            match ev {
+                                Ev::Withdraw(u, h) => { if snapshot || u != "rsync://h.example/m/w.roa" || *h != hs[1] { return Err(format!("withdraw delivered as ({u},{h})")) } }
+                                Ev::Publish(u, h, outs) => {
+                                    let want_h = if !snapshot && k == 1 { Some(hs[2]) } else { None };
+                                    if u != uris[k] || *h != want_h { return Err(format!("object #{k} delivered as ({u},{h:?})")) }
+                                    judge_ops(&objs[k], &scripts[k], outs).map_err(|e| format!("object #{k}: {e}"))?;
+                                    k += 1;
+                                }
+                            }
+                        }
+                        Ok(())
+                    });
+                }
+            }
+        }
+        sp.evals(n); sp.nontrivial(nt); sp.merge_outcomes(&oc);
+    });
+    fails.flush_into(ctx, &sp);
+    sp.set("calls", json!(ROPS.iter().map(|o| format!("{o:?}")).collect::<Vec<_>>()));
+    sp.sample_str(|| "snapshot: object of 17 binary octets consumed by [Read(4), Exact(5), ToEnd]".into());
+    sp.done(true, &format!("{} sizes x 2 contents x {} sequences (length <= 3{}) x snapshot, delta", sizes.len(), n_seq, if thorough { "" } else { "; length <= 2 for most sizes" }));
+}
+
+//============ ownership of shared buffers, environment, call parameters ======
+
+fn space_ownership(ctx: &Ctx) {
+    let sp = ctx.space("ownership.shared_buffers",
+        "object content and URIs whose Bytes are (a) solely owned, (b) shared with a live clone, (c) shared with a clone dropped just before, (d) a view into a larger buffer, (e) static: write_xml of snapshot / delta / notification gives the same octets in all five cases, the parsed value and all its accessors agree with the sole-owner twin, and the live clone / the larger buffer are unchanged afterwards; sort_deltas / reverse_sort_deltas / sort_and_verify_deltas on a NotificationFile with a live clone leave the clone unchanged and give what they give on a sole owner; contents of length 0..=40 and 255..257, 767..769; non-trivial = non-empty contents");
+    let mut lens: Vec<usize> = (0..=40).collect();
+    lens.extend([255, 256, 257, 767, 768, 769]);
+    let fails = Fails::new();
+    static STATIC_BUF: [u8; 1024] = { let mut b = [0u8; 1024]; let mut i = 0; while i < 1024 { b[i] = (i as u8).wrapping_mul(0x6D).wrapping_add(0xFB); i += 1 } b };
+    lens.par_iter().for_each(|&len| {
+        for form in 0..5usize {
+            sp.eval(); if len > 0 { sp.nontrivial(1) }
+            sp.outcome(["sole-owner", "live-clone", "clone-dropped", "view-into-larger", "static"][form]);
+            fails.check((len * 8 + form) as u64, "C09.ownership", || format!("content of {len} octets, {}", ["sole owner", "live clone", "clone dropped just before", "view into a larger buffer", "static"][form]), || {
+                let raw: Vec<u8> = STATIC_BUF[..len].to_vec();
+                let uri_text = format!("rsync://h.example/m/{len}&'.roa");
+                let padded = format!("##{uri_text}##");
+                let big_uri = Bytes::from(padded.clone().into_bytes());
+                let larger = Bytes::from([&b"<<<"[..], &raw, &b">>>"[..]].concat());
+                let mut keep: Vec<Bytes> = Vec::new();
+                let (data, uri) = match form {
+                    0 => (Bytes::from(raw.clone()), uri::Rsync::from_bytes(Bytes::from(uri_text.clone().into_bytes()))),
+                    1 => { let d = Bytes::from(raw.clone()); keep.push(d.clone()); let u = Bytes::from(uri_text.clone().into_bytes()); keep.push(u.clone()); (d, uri::Rsync::from_bytes(u)) }
+                    2 => { let d = Bytes::from(raw.clone()); drop(d.clone()); let u = Bytes::from(uri_text.clone().into_bytes()); drop(u.clone()); (d, uri::Rsync::from_bytes(u)) }
+                    3 => (larger.slice(3..3 + len), uri::Rsync::from_bytes(big_uri.slice(2..2 + uri_text.len()))),
+                    _ => (Bytes::from_static(&STATIC_BUF[..len]), uri::Rsync::from_bytes(Bytes::from_static(b"rsync://h.example/m/static&'.roa"))),
+                };
+                let uri = uri.map_err(|e| format!("URI refused: {e}"))?;
+                let twin_uri = rsync(uri.as_str());
+                let h = hashes()[2];
+                let mk = |u: &uri::Rsync, d: &Bytes| (Snapshot::new(sessions()[2], 3, vec![PublishElement::new(u.clone(), d.clone()), PublishElement::new(u.clone(), d.clone())]),
+                    Delta::new(sessions()[2], 4, vec![UpdateElement::new(u.clone(), h, d.clone()).into(), WithdrawElement::new(u.clone(), h).into(), PublishElement::new(u.clone(), d.clone()).into()]));
+                let (snap, delta) = mk(&uri, &data);
+                let (tsnap, tdelta) = mk(&twin_uri, &Bytes::from(raw.clone()));
+                let (mut a, mut b, mut c, mut d) = (Vec::new(), Vec::new(), Vec::new(), Vec::new());
+                snap.write_xml(&mut a).map_err(|e| e.to_string())?; tsnap.write_xml(&mut b).map_err(|e| e.to_string())?;
+                delta.write_xml(&mut c).map_err(|e| e.to_string())?; tdelta.write_xml(&mut d).map_err(|e| e.to_string())?;
+                if a != b { return Err("snapshot XML differs from the sole-owner twin's".into()) }
+                if c != d { return Err("delta XML differs from the sole-owner twin's".into()) }
+                let want: Vec<Seen> = vec![Seen::Publish { uri: twin_uri.clone(), hash: None, data: raw.clone() }; 2];
+                roundtrip_snapshot(sessions()[2], 3, &want, 0)?;
+                let back = Snapshot::parse(a.as_slice()).map_err(|e| e.to_string())?;
+                let els: Vec<DeltaElement> = back.clone().into_elements().into_iter().map(DeltaElement::from).collect();
+                accessor_sweep(&want, &els, "parsed")?;
+                // unpack / into_elements on the shared value must not disturb the other holders
+                let taken: Vec<(uri::Rsync, Bytes)> = snap.clone().into_elements().into_iter().map(|e| e.unpack()).collect();
+                for (u, dd) in &taken { if u.as_str() != uri.as_str() || dd[..] != raw[..] { return Err("unpack() of the shared value differs".into()) } }
+                drop(taken); drop(snap); drop(delta);
+                for k in &keep { if k[..] != raw[..] && k[..] != *uri_text.as_bytes() { return Err("the live clone changed".into()) } }
+                if larger[..] != [&b"<<<"[..], &raw, &b">>>"[..]].concat()[..] || big_uri[..] != *padded.as_bytes() { return Err("the larger buffer changed".into()) }
+                if data[..] != raw[..] || uri.as_str() != if form == 4 { "rsync://h.example/m/static&'.roa" } else { uri_text.as_str() } { return Err("the value itself changed".into()) }
+                Ok(())
+            });
+        }
+    });
+    // &mut self methods of NotificationFile with a live clone
+    let seqs: [&[u64]; 6] = [&[], &[3], &[2, 1], &[1, 3, 2, 2], &[MAX, 0, MAX - 1], &[5, 4, 3, 2, 1, 0, 9]];
+    for (si, serials) in seqs.iter().enumerate() { for m in 0..4usize { for live in [false, true] {
+        sp.eval(); sp.nontrivial(1); sp.outcome(if live { "live-clone" } else { "sole-owner" });
+        fails.check(1 << 30 | (si * 8 + m * 2 + live as usize) as u64, "C09.ownership", || format!("{} on serials={} {}", ["sort_deltas", "reverse_sort_deltas", "sort_and_verify_deltas(None)", "sort_and_verify_deltas(Some(2))"][m], show_serials(serials), if live { "with a live clone" } else { "sole owner" }), || {
+            let mut nf = mk_notification(serials);
+            let mut twin = mk_notification(serials);
+            let clone = if live { Some(nf.clone()) } else { None };
+            let act = |x: &mut NotificationFile| match m { 0 => { x.sort_deltas(); true } 1 => { x.reverse_sort_deltas(); true } 2 => x.sort_and_verify_deltas(None), _ => x.sort_and_verify_deltas(Some(2)) };
+            let (r1, r2) = (act(&mut nf), act(&mut twin));
+            if r1 != r2 || nf != twin { return Err("result differs from the sole-owner twin".into()) }
+            if let Some(c) = clone { if c != mk_notification(serials) { return Err("the live clone changed".into()) } }
+            Ok(())
+        });
+    }}}
+    fails.flush_into(ctx, &sp);
+    sp.sample_str(|| "content of 17 octets, view into a larger buffer".into());
+    sp.done(true, &format!("{} content lengths x 5 ownership forms; 6 serial lists x 4 methods x 2", lens.len()));
+}
+
+/// All subject observations, one per line group, for comparison across processes.
+fn subject_dump() -> String {
+    history_subjects().iter().map(|(n, f)| format!("## {n}\n{}\n", on_fresh_thread(|| observe(f)))).collect()
+}
+
+fn space_environment(ctx: &Ctx) {
+    let sp = ctx.space("environment.timezone",
+        "the history subjects (every oracle family) evaluated in child processes of this binary started with TZ=UTC0, TZ=XXX+12 (west) and TZ=XXX-14 (east): every observation equals the one made in this process; non-trivial = the two non-UTC zones");
+    let here = subject_dump();
+    let exe = match std::env::current_exe() { Ok(e) => e, Err(e) => { ctx.machinery_error(format!("current_exe: {e}")); sp.done(false, "not run"); return } };
+    for (i, tz) in ["UTC0", "XXX+12", "XXX-14"].into_iter().enumerate() {
+        sp.evals(history_subjects().len() as u64);
+        if i > 0 { sp.nontrivial(1) }
+        sp.outcome(if i == 0 { "utc" } else { "shifted-zone" });
+        match std::process::Command::new(&exe).arg("--c09-subject-dump").env("TZ", tz).output() {
+            Err(e) => ctx.machinery_error(format!("cannot start the child process for TZ={tz}: {e}")),
+            Ok(out) => {
+                let there = String::from_utf8_lossy(&out.stdout).into_owned();
+                if !out.status.success() && there.is_empty() { ctx.machinery_error(format!("child process for TZ={tz} failed: {}", String::from_utf8_lossy(&out.stderr))); continue }
+                if there != here {
+                    // name the first subject that differs
+                    let a: Vec<&str> = here.split("## ").collect(); let b: Vec<&str> = there.split("## ").collect();
+                    let k = a.iter().zip(&b).position(|(x, y)| x != y).unwrap_or(0);
+                    sp.outcome("oracle-violated");
+                    ctx.fail("C09.environment.timezone", format!("TZ={tz} subject {:?}", a.get(k).and_then(|x| x.lines().next()).unwrap_or("?")),
+                        format!("observed {} -- with the parent's environment {}", trunc(&first_difference(b.get(k).unwrap_or(&""), a.get(k).unwrap_or(&"")), 300), trunc(&first_difference(a.get(k).unwrap_or(&""), b.get(k).unwrap_or(&"")), 300)));
+                }
+            }
+        }
+    }
+    sp.sample_str(|| "TZ=XXX+12: all subjects".into());
+    sp.done(true, "3 zones x all subjects");
+}
+
+/// `padded` must be `canon` itself or `canon` padded with `fill` to `width` on the side(s) the alignment says.
+fn padding_ok(canon: &str, padded: &str, fill: char, width: usize) -> Result<(), String> {
+    if padded == canon { return Ok(()) }
+    let inner = padded.trim_start_matches(fill);
+    let lead = padded.chars().count() - inner.chars().count();
+    // the value may itself start or end with the fill character: try every split of the padding
+    let total = padded.chars().count();
+    let cl = canon.chars().count();
+    if total != width.max(cl) { return Err(format!("{total} characters for width {width}, value has {cl}")) }
+    for l in 0..=lead.min(total - cl) {
+        let body: String = padded.chars().skip(l).take(cl).collect();
+        let tail: String = padded.chars().skip(l + cl).collect();
+        if body == canon && padded.chars().take(l).all(|c| c == fill) && tail.chars().all(|c| c == fill) { return Ok(()) }
+    }
+    Err("the value is not contained unchanged between the fill characters".into())
+}
+
+fn space_call_parameters(ctx: &Ctx) {
+    let sp = ctx.space("call_parameters.display_width",
+        "Display of Hash, session Uuid, serial, uri::Https, uri::Rsync and of the error types with width 0,1,10,63,64,65,70,100 x alignment default/</>/^ x fill space/*/0 and the {:0w} form: the text is the plain Display text, unchanged, or that text padded with the fill to the width; with the padding removed it parses back (FromStr) to the value; non-trivial = widths larger than the plain text");
+    let fails = Fails::new();
+    let mut values: Vec<(String, Box<dyn std::fmt::Display + Send + Sync>, Box<dyn Fn(&str) -> bool + Send + Sync>)> = Vec::new();
+    for h in hashes().into_iter().chain([Hash::from_data(b"c09")]) { values.push((format!("Hash {h}"), Box::new(h), Box::new(move |t| Hash::from_str(t).ok() == Some(h)))) }
+    for u in sessions() { values.push((format!("session {u}"), Box::new(u), Box::new(move |t| Uuid::from_str(t).ok() == Some(u)))) }
+    for n in SERIALS { values.push((format!("serial {n}"), Box::new(n), Box::new(move |t| t.parse::<u64>().ok() == Some(n)))) }
+    for u in HTTPS_URIS { let v = https(u); let w = v.clone(); values.push((format!("Https {u}"), Box::new(v), Box::new(move |t| uri::Https::from_str(t).is_ok_and(|x| x.as_str() == w.as_str())))) }
+    for u in RSYNC_URIS { let v = rsync(u); let w = v.clone(); values.push((format!("Rsync {u}"), Box::new(v), Box::new(move |t| uri::Rsync::from_str(t).is_ok_and(|x| x.as_str() == w.as_str())))) }
+    if let Err(e) = NotificationFile::parse(&b"<x/>"[..]) { let t = e.to_string(); values.push(("xml::decode::Error".into(), Box::new(e), Box::new(move |x| x == t))) }
+    if let Err(e) = Snapshot::parse(&b"<x"[..]) { let t = e.to_string(); values.push(("rrdp::ProcessError".into(), Box::new(e), Box::new(move |x| x == t))) }
+    if let Err(e) = Hash::from_str("zz") { let t = e.to_string(); values.push(("rrdp::ParseHashError".into(), Box::new(e), Box::new(move |x| x == t))) }
+    if let Err(e) = rpki::util::base64::Xml.decode("A") { let t = e.to_string(); values.push(("base64::XmlDecodeError".into(), Box::new(e), Box::new(move |x| x == t))) }
+    let widths = [0usize, 1, 10, 63, 64, 65, 70, 100];
+    values.par_iter().enumerate().for_each(|(vi, (name, v, back))| {
+        let canon = match guard(|| format!("{v}")) { Ok(c) => c, Err(p) => { fails.push((vi as u64) << 20, "C09.call_parameters.display", name.clone(), p); return } };
+        for (wi, &w) in widths.iter().enumerate() {
+            macro_rules! spec { ($k:expr, $text:expr, $fill:expr, $fmt:literal) => { spec!($k, $text, $fill, $fmt, $fill) }; ($k:expr, $text:expr, $fill:expr, $fmt:literal, $alt:expr) => {{
+                sp.eval(); if w > canon.chars().count() { sp.nontrivial(1) }
+                sp.outcome(if w > canon.chars().count() { "wider-than-text" } else { "not-wider" });
+                fails.check((vi as u64) << 20 | (wi as u64) << 8 | $k, "C09.call_parameters.display", || format!("format!(\"{}\", {name}) with w={w}", $text), || {
+                    let padded = format!($fmt, v, w = w);
+                    // (the `0` flag without an explicit fill is a numeric notion: a text-like Display may pad with spaces)
+                    let fill: char = if padding_ok(&canon, &padded, $fill, w).is_ok() { $fill } else { $alt };
+                    padding_ok(&canon, &padded, fill, w).map_err(|e| format!("{e}: {padded:?} vs plain {canon:?}"))?;
+                    let stripped = if padded == canon { padded.clone() } else { let cl = canon.chars().count(); let s: String = padded.chars().collect(); (0..=s.chars().count() - cl).map(|l| s.chars().skip(l).take(cl).collect::<String>()).find(|b| *b == canon).unwrap_or(s.trim_matches(fill).to_string()) };
+                    if !back(&stripped) { return Err(format!("{stripped:?} (padding removed) does not parse back to the value")) }
+                    Ok(())
+                });
+            }}}
+            spec!(0, "{:w$}", ' ', "{:w$}"); spec!(1, "{:<w$}", ' ', "{:<w$}"); spec!(2, "{:>w$}", ' ', "{:>w$}"); spec!(3, "{:^w$}", ' ', "{:^w$}");
+            spec!(4, "{:*<w$}", '*', "{:*<w$}"); spec!(5, "{:*>w$}", '*', "{:*>w$}"); spec!(6, "{:*^w$}", '*', "{:*^w$}");
+            spec!(7, "{:0<w$}", '0', "{:0<w$}"); spec!(8, "{:0>w$}", '0', "{:0>w$}"); spec!(9, "{:0^w$}", '0', "{:0^w$}"); spec!(10, "{:0w$}", '0', "{:0w$}", ' ');
+        }
+    });
+    fails.flush_into(ctx, &sp);
+    sp.sample_str(|| format!("{:*^70}", hashes()[2]));
+    sp.done(true, &format!("{} values x 8 widths x 11 format specs", values.len()));
+}
+
 fn main() {
     // before anything is parsed: every log record the library emits is formatted from now on
     let logger_ok = log::set_logger(&LOGGER).is_ok();
     log::set_max_level(log::LevelFilter::Trace);
+    // child-process mode of environment.timezone: print the subject observations and leave
+    if std::env::args().any(|a| a == "--c09-subject-dump") {
+        rpki_verif::engine::report::install_quiet_panic_hook();
+        print!("{}", subject_dump());
+        return;
+    }
     let ctx = Ctx::new("C09", "fault_enumeration");
     if !logger_ok { ctx.machinery_error("could not install the formatting logger") }
     ctx.assume("a process-wide logger at level Trace that formats every record is installed for the whole run, so the library's log statements are executed as they would be in an application that logs");
@@ -2146,13 +2753,15 @@ fn main() {
     // C09_ONLY=<comma list> is a development aid; a partial run is never a verdict.
     let only = std::env::var("C09_ONLY").ok();
     if only.is_some() { ctx.machinery_error("C09_ONLY is set: partial run") }
-    let spaces: [(&str, fn(&Ctx)); 15] = [
+    let spaces: [(&str, fn(&Ctx)); 20] = [
         ("deltas", space_deltas), ("origins", space_origins),
         ("rt_notification", space_rt_notification), ("rt_snapshot", space_rt_snapshot), ("rt_delta", space_rt_delta),
         ("short", space_hostile_short), ("pairs", space_hostile_pairs), ("mutations", space_hostile_mutations),
         ("bombs", space_hostile_bombs), ("endless", space_hostile_endless),
         ("xml_variants", space_xml_variants), ("xml_writer", space_xml_writer), ("base64", space_base64),
         ("scale", space_scale), ("names", space_names),
+        ("history", space_history), ("handed_out", space_handed_out), ("ownership", space_ownership),
+        ("environment", space_environment), ("call_parameters", space_call_parameters),
     ];
     // The value spaces build their inputs from fixed URI alphabets. If the library under
     // test refuses one of these protocol-valid URIs, that is reported as a violation
@@ -2163,7 +2772,7 @@ fn main() {
     for u in RSYNC_URIS { if let Err(e) = guard(|| uri::Rsync::from_str(u).map_err(|e| e.to_string())).and_then(|r| r) { alphabet_ok = false; ctx.fail("C09.roundtrip.alphabet", u.to_string(), format!("protocol-valid rsync URI refused by uri::Rsync::from_str: {e}")) } }
     for (name, f) in spaces {
         if let Some(o) = &only { if !o.split(',').any(|x| x == name) { continue } }
-        if !alphabet_ok && ["deltas", "origins", "rt_notification", "rt_snapshot", "rt_delta"].contains(&name) { continue }
+        if !alphabet_ok && ["deltas", "origins", "rt_notification", "rt_snapshot", "rt_delta", "scale", "history", "handed_out", "ownership", "environment", "call_parameters"].contains(&name) { continue }
         let t = std::time::Instant::now();
         if let Err(p) = guard(|| f(&ctx)) { ctx.machinery_error(format!("explorer code for space group {name} panicked: {p}")) }
         if std::env::var("C09_TIMING").is_ok() { eprintln!("[{name}] {:.2}s", t.elapsed().as_secs_f64()) }
